@@ -227,10 +227,15 @@ def first_problem(r):
 
 def shrink(script, kind, workdir, max_runs=400):
     """Delta-debug a failing script: drop operations while the same kind of problem remains."""
+    target = [None]
+
     def fails(ops):
         r = run_scripts([Script(script.name, ops, script.meta)], workdir, "shrink")[0]
         p = first_problem(r)
-        return p is not None and p[0] == kind
+        if p is None or p[0] != kind:
+            return False
+        # the same rule of the Spec must fail (a shorter script that fails for another reason is another finding, not a smaller replay)
+        return kind != "spec" or target[0] is None or r["spec"][p[1]][:32] == target[0]
     ops = list(script.ops)
     runs = 0
     # first cut everything after the failing op
@@ -238,6 +243,8 @@ def shrink(script, kind, workdir, max_runs=400):
     p = first_problem(r)
     if p is None:
         return script
+    if kind == "spec":
+        target[0] = r["spec"][p[1]][:32]
     ops = ops[: p[1] + 1]
     n = 2
     while len(ops) >= 2 and runs < max_runs:
